@@ -74,8 +74,42 @@ def stepDerivs (s : TState R) (k : Nat) : String :=
       C04.flag (beqList rev specD && beqList fwd specD) s!"fwdrev=ok d={renderList specD}"
     | .panic kind => s!"MODEL-SPEC-DISAGREE panic({kind})"
 
+/-- comparisons / Display of traces: all runs carry the same number, the answer is that of the
+    plain values; every run's traces are compared with it -/
+def stepCmp (s : TState R) (op : String) (a b : Nat) : String :=
+  let (x, y) := (s.base.vs.getD a 0, s.base.vs.getD b 0)
+  match cmpAnswer op (NumOrd.eq x y) (numPartialCmp x y) with
+  | none => "bad-op"
+  | some spec =>
+    let ok := s.dss.all fun (_, ds) =>
+      let (da, db) := (getDual ds a, getDual ds b)
+      cmpAnswer op (da.eq db) (da.partialCmp db) == some spec
+    C04.flag ok spec
+
 def stepT (s : TState R) (toks : List String) : TState R × String :=
   match toks with
+  | "cmp" :: op :: a :: b :: _ =>
+    match s.base.names.find a, s.base.names.find b with
+    | some a, some b => (s, stepCmp s op a b)
+    | _, _ => (s, "bad-ref")
+  | "clone" :: name :: a :: _ =>
+    match s.base.names.find a with
+    | some k =>
+      let v := s.base.vs.getD k 0
+      let specD : List R := s.tss.map fun (_, ts) => ts.getD k 0
+      let ok := (s.dss.zip specD).all fun ((_, ds), t) =>
+        let d := (getDual ds k).clone
+        d.number == v && d.derivative == t
+      ({ s with base := { s.base with names := (name, k) :: s.base.names } },
+       C04.flag ok s!"v={Elem.render v} d={renderList specD}")
+    | none => (s, "bad-ref")
+  | "show" :: a :: _ =>
+    match s.base.names.find a with
+    | some k =>
+      let spec := Elem.render (s.base.vs.getD k 0)
+      let ok := s.dss.all fun (_, ds) => (getDual ds k).display Elem.render == spec
+      (s, C04.flag ok s!"s={spec}")
+    | none => (s, "bad-ref")
   | ["derivs", r] | ["derivs", r, _] | ["tryderivs", r] | ["tryderivs", r, _] =>
     match s.base.names.find r with
     | some k => (s, stepDerivs s k)
